@@ -322,9 +322,10 @@ theorem propagation_past_redefinition_refuted :
 
 /-- PARTIAL soundness of `register_propagation` on one basic block.  `SafeBlock b` (decidable; computed by running the
     model of the pass on `b`) says that EVERY change the pass makes on `b` is of the kind its comments promise: the
-    definition `x := e` is live and precedes the use, `e` is pure (no invoke, no `/`, `%`) and does not read `x`, no live
+    definition `x := e` is live and precedes the use, `e` makes no invoke and does not read `x`, no live
     instruction between the definition and the use assigns `x` or a register of `e`, `replace` only overwrites
-    occurrences of `x`, and a definition that is deleted is dead.  Then the block the pass leaves has the outcome of `b`
+    occurrences of `x`, and a definition that is deleted is dead and either cannot throw (no `/`, `%`) or is evaluated
+    by the instructions that follow, on the same operands, before any call or return (`Propagate.forces`).  Then the block the pass leaves has the outcome of `b`
     (returned value or exception, and the sequence of calls made) for EVERY meaning of the operators and calls
     (`Sem`: any total meaning of the operators other than `/`, `%`), in every environment and world. -/
 theorem propagate_sound_partial (S : Propagate.Sem) (b : Propagate.Block) (h : Propagate.SafeBlock b)
@@ -369,5 +370,21 @@ theorem dce_then_propagate_sound_partial (S : Propagate.Sem) (b : Propagate.Bloc
 theorem dce_sound_nonvacuous : (Propagate.dcePass Propagate.deadChain).ok = true ∧
     (Propagate.dce Propagate.deadChain).stmts.length = 2 :=
   ⟨Propagate.deadChain_safe.1, by rw [Propagate.deadChain_safe.2]; rfl⟩
+
+/-- non-vacuity for a division: `v0 = p10 / p11; v1 = v0 + 1; return v1` is a `SafeBlock` (the pass leaves
+    `return (p10 / p11) + 1`, the exception of a zero divisor included) -/
+theorem propagate_sound_division_nonvacuous : Propagate.SafeBlock Propagate.divisionExample ∧
+    (Propagate.propagate Propagate.divisionExample).stmts.length = 1 :=
+  ⟨Propagate.divisionExample_safe.1, by rw [Propagate.divisionExample_safe.2]; rfl⟩
+
+/-- REFUTED for the code as it is (known finding `division-not-a-side-effect`, at the level of this pass): from
+    `v0 = p10 / p11; v1 = f1(p10); return v1 + v0` the model of `register_propagation` makes
+    `return f1(p10) + p10 / p11`: with `p11 = 0` the block throws before calling `f1`, the result calls `f1` and then
+    throws. -/
+theorem propagation_moves_division_behind_call_refuted :
+    Propagate.divisionBehindCall.run Propagate.javaSem Propagate.env50 = .throw [] ∧
+      (Propagate.propagate Propagate.divisionBehindCall).run Propagate.javaSem Propagate.env50 = .throw [(1, 5)] ∧
+      ¬ Propagate.SafeBlock Propagate.divisionBehindCall :=
+  ⟨Propagate.division_behind_call_before, Propagate.division_behind_call_after, Propagate.division_behind_call_not_safe⟩
 
 end AgVerif.C21
